@@ -183,6 +183,9 @@ def run(repo):
                              repo.where(fi)))
         for letters, body, node in chain:
             info = analyse_branch(body, out_name)
+            if any('outside the interpreted branch language' in x or 'main terms found' in x
+                   or 'appears inside' in x for x in info['problems']):
+                raise AnalysisError('%s, branch %s: %s' % (fq, '/'.join(letters), info['problems'][0]))
             for letter in letters:
                 probs = list(info['problems'])
                 if not probs:
